@@ -311,7 +311,8 @@ def register(R):
         f'{BLS}.read', props=['C13'], params=dict(amount=Int),
         requires=lambda c: [c.a_amount >= 0],
         checks=read_post,
-        raises={'Exception': only_propagates},
+        # the source's own exception, or -- while waiting for its turn -- the exception another thread recorded for the transfer
+        raises={'Exception': only_propagates, '$stored': only_propagates},
         inline_callees=[],
     )
 
